@@ -23,11 +23,18 @@ def programs(tier):
             crossable += [m for m in (FRAME_OPS[name](L) or []) if m is not None]
         crossable.append(_n(L, "L.a.to_frame()", "to_frame", cols=(("a", "i"),)))
         crossable.append(_n(L, "L.astype('float64')", "astype-all", cols=tuple((c, "f") for c in L.names)))
+        # conversions that change how a value compares (int -> bool): the predicate has to see the converted values
+        crossable.append(_n(L, "L.astype({'a': 'bool'})", "astype-bool", cols=(("a", "b"), ("b", "f"), ("c", "i"))))
+        crossable.append(_n(L, "L[['a', 'c']].astype('bool')", "astype-bool-all", cols=(("a", "b"), ("c", "b"))))
         crossable.append(_n(L, "L.set_index('a', divisions=[-10, 0, 10]).reset_index()", "set_index-div", cols=(("a", "i"), ("b", "f"), ("c", "i")), index_ok=False, ordered=False))
         crossable.append(_n(L, "L.sort_values('a')", "sort_values", ordered=False) if nparts == 1 else None)
         # the new index given as a separate series (data-dependent planning: outside the model, covered by the crash oracle)
         crossable.append(_n(L, "L.set_index(L.c * 2)", "set_index-series-key", cols=(("a", "i"), ("b", "f"), ("c", "i")), index_ok=False, ordered=False))
         for mid in [m for m in crossable if m is not None]:
+            if mid.ops and mid.ops[-1].startswith("astype-bool"):
+                for tag, p in (("eq1", "Y.a == 1"), ("bool", "Y.a"), ("not", "~Y.a"), ("ne2", "Y.a != 2"), ("and", "(Y.a == 1) & (Y.c > 0)")):
+                    progs.append(Program(f"(lambda Y: Y[{p}])({mid.text})", [srcL], ordered=False, family="F03", note=f"{'/'.join(mid.ops)}/pred-{tag}"))
+                continue
             for tag, p in predicates(mid, "Y"):
                 text = f"(lambda Y: Y[{p}])({mid.text})"
                 progs.append(Program(text, [srcL], ordered=False, family="F03", note=f"{'/'.join(mid.ops)}/pred-{tag}"))
@@ -35,6 +42,11 @@ def programs(tier):
                     # consecutive filters (squashing) and a second consumer of the filtered frame
                     progs.append(Program(f"(lambda Z: Z[Z.{mid.names[0]} != 0])({text})", [srcL], ordered=False, family="F03", note=f"{'/'.join(mid.ops)}/pred-{tag}/squash"))
                     progs.append(Program(f"(lambda Z: Z[Z.{mid.names[0]} != 0])({text})", [srcLd], ordered=False, family="F03", note=f"{'/'.join(mid.ops)}/pred-{tag}/squash-dupindex"))
+        # an expression that filters may pass through, used as the *predicate* itself (it is not the frame being filtered)
+        for ptxt in ("L.a.astype('bool')", "(L.a > 1).rename('x')", "(L.a > 1).to_frame('k').k", "(L.a > 0).astype('int64').astype('bool')", "(L.c > 0).rename('a') & (L.a > 0)",
+                     "L[['a']].astype('bool').a", "(L.reset_index().a > 0) if False else (L.a.abs() > 1).rename(None)"):
+            progs.append(Program(f"L[{ptxt}]", [srcL], ordered=False, family="F03", note="predicate-is-passthrough-op"))
+            progs.append(Program(f"L[{ptxt}].c.sum()", [srcL], ordered=False, family="F03", note="predicate-is-passthrough-op"))
         # frame-valued predicates: Y[Y > c] masks cells, it does not select rows, and must not be moved like a row filter
         for mid in [m for m in crossable if m is not None] + [_n(L, "L.set_index('a', divisions=[-10, 0, 10])", "set_index-only", cols=(("b", "f"), ("c", "i")), ordered=False)]:
             for ptag, p in (("gt", "Y > 0"), ("ne", "Y != 1"), ("and", "(Y > 0) & (Y < 2)")):
